@@ -16,11 +16,12 @@ from fractions import Fraction
 
 class Job:
     def __init__(s, name, harness, defs=(), libs=('libvpsc',), exclude=(), relax_int=True, max_steps=30000000,
-                 time_limit=None, validate_every=1, may_skip=(), bounds='', opts=None, max_paths=None, leak_check=True):
+                 time_limit=None, validate_every=1, may_skip=(), bounds='', opts=None, max_paths=None, leak_check=True,
+                 path_time_limit=300, libdefs=()):
         s.name = name; s.harness = harness; s.defs = list(defs); s.libs = list(libs); s.exclude = tuple(exclude)
         s.relax_int = relax_int; s.max_steps = max_steps; s.time_limit = time_limit; s.validate_every = validate_every
         s.may_skip = set(may_skip); s.bounds = bounds; s.opts = dict(opts or {}); s.max_paths = max_paths
-        s.leak_check = leak_check
+        s.leak_check = leak_check; s.path_time_limit = path_time_limit; s.libdefs = tuple(libdefs)
 
 
 def log(msg):
@@ -69,7 +70,7 @@ def match_known(known, prop, job, kind, msg, where):
 def confirm(job, kind, msg, vals, replay_path):
     """replay one candidate against the native build of the same harness + real sources.
     returns (confirmed: bool, detail)"""
-    exe = build.build_native(job.harness, job.defs, job.libs, job.exclude)
+    exe = build.build_native(job.harness, job.defs, job.libs, job.exclude, libdefs=job.libdefs)
     irsym.write_replay(replay_path, vals)
     env = dict(os.environ); env['VERIF_REPLAY'] = replay_path
     def runit(cmd, timeout=120):
@@ -99,17 +100,17 @@ def confirm(job, kind, msg, vals, replay_path):
 
 def run_job(prop, job, tier, workers):
     t0 = time.time()
-    ll = build.build_module(job.harness, job.defs, job.libs, job.exclude)
-    exe = build.build_native(job.harness, job.defs, job.libs, job.exclude)
+    ll = build.build_module(job.harness, job.defs, job.libs, job.exclude, libdefs=job.libdefs)
+    exe = build.build_native(job.harness, job.defs, job.libs, job.exclude, libdefs=job.libdefs)
     tb = time.time() - t0
-    opts = dict(relax_int=job.relax_int, max_steps=job.max_steps, no_leak_check=not job.leak_check)
+    opts = dict(relax_int=job.relax_int, max_steps=job.max_steps, no_leak_check=not job.leak_check, path_time_limit=job.path_time_limit)
     opts.update(job.opts)
     R = irsym.explore(ll, opts=opts, workers=workers, exe=exe, time_limit=job.time_limit, max_paths=job.max_paths,
                       validate_every=job.validate_every, log=log)
     R['build_s'] = tb
     R['all_msgs'] = check_messages(ll)
     # vacuity guard: the -DWITNESS twin must report its final CHECK(0) on a feasible path
-    wl = build.build_module(job.harness, job.defs + ['-DWITNESS'], job.libs, job.exclude)
+    wl = build.build_module(job.harness, job.defs + ['-DWITNESS'], job.libs, job.exclude, libdefs=job.libdefs)
     W = irsym.explore(wl, opts=opts, workers=1, exe=None, max_paths=6)
     R['witness'] = any(v[0] == 'assert' and v[1] == 'witness reachable' for v in W['violations'])
     if not R['witness'] and W['exhausted'] is False:
@@ -238,7 +239,7 @@ def replay_cmd(J, prop, path):
     meta = json.load(open(path + '.json'))
     job = next(j for t in ('quick', 'thorough') for j in J.JOBS[prop][t] if j.name == meta['job'])
     vals = []
-    exe = build.build_native(job.harness, job.defs, job.libs, job.exclude)
+    exe = build.build_native(job.harness, job.defs, job.libs, job.exclude, libdefs=job.libdefs)
     env = dict(os.environ); env['VERIF_REPLAY'] = path
     r = subprocess.run([exe], env=env)
     log('replayed %s (job %s, expected: [%s] %s) -> exit status %s' % (path, job.name, meta['kind'], meta['msg'], r.returncode))
